@@ -2,7 +2,7 @@
 From Coq Require Import NArith List Bool.
 From PV Require Import Base.Sx Model.Forest Model.Table Model.LRDriver Model.Scan Model.Parser
   Validators.TableStruct Validators.ForestSound Validators.TableComplete Validators.TableProgress
-  Validators.LexSep Validators.ItemsSound Model.Errors Extract.Codec.
+  Validators.LexSep Validators.ItemsSound Validators.ForestComplete Model.Errors Extract.Codec.
 From PV Require Import Extract.RunC19.
 From PV Require Import Extract.RunC12.
 From PV Require Import Extract.RunC09.
@@ -124,6 +124,33 @@ Definition run_items_sound (s : sx) : sx :=
   L [ofB (items_sound g tb); ofB (states_closure_ok g tb 0 tb); ofB (nonempty_items tb 0);
      ofB (all_productive g); ofB (sprime_unique g)].
 
+(* 15: forest completeness (grammar forest chars rx ws start pos0 consume chart):
+       (forest_ok relaxed, chart_closed, forest_complete) *)
+Definition item_of_sx (s : sx) : item :=
+  (sym_of_sx (sx_nth s 0),
+   match sxNs (sx_nth s 1) with
+   | [a; b] => Some (a, b)
+   | _ => None
+   end).
+
+Definition run_forest_complete (s : sx) : sx :=
+  let g := grammar_of_sx (sx_nth s 0) in
+  let F := forest_of_sx (sx_nth s 1) in
+  let inp := mkPInput (sxNs (sx_nth s 2)) (map sxNs (sxL (sx_nth s 3))) in
+  let ws := sxNs (sx_nth s 4) in
+  let tokok := fun y b e => match rx_of inp y b with
+                            | Some l => (b + l =? e)
+                            | None => false
+                            end in
+  let C := map item_of_sx (sxL (sx_nth s 8)) in
+  let toks := matrix_toks (pi_rx inp) in
+  let start := sxN (sx_nth s 5) in
+  let pos0 := sxN (sx_nth s 6) in
+  let consume := sxB (sx_nth s 7) in
+  L [ofB (forest_ok g tokok (skip_ws ws inp) false start pos0 (in_len inp) consume F);
+     ofB (chart_closed g (skip_ws ws inp) C toks);
+     ofB (forest_complete g tokok (skip_ws ws inp) C toks start pos0 (in_len inp) consume F)].
+
 Definition run (cmd : N) (arg : sx) : sx :=
   match cmd with
   | 1 => run_forest_stats arg
@@ -140,6 +167,7 @@ Definition run (cmd : N) (arg : sx) : sx :=
   | 12 => run_table_progress arg
   | 13 => run_sep_tokens arg
   | 14 => run_items_sound arg
+  | 15 => run_forest_complete arg
   | 190 => run_c19_unescape arg
   | 191 => run_c19_build arg
   | 192 => run_c19_match arg
